@@ -18,3 +18,11 @@ pub assume_specification<T: core::cmp::Ord>[ core::cmp::max::<T> ](a: T, b: T) -
     ensures T::obeys_cmp_spec() ==> r == (if b.cmp_spec(&a) == core::cmp::Ordering::Less { a } else { b });
 pub assume_specification<T: core::cmp::Ord>[ core::cmp::min::<T> ](a: T, b: T) -> (r: T)
     ensures T::obeys_cmp_spec() ==> r == (if b.cmp_spec(&a) == core::cmp::Ordering::Less { b } else { a });
+
+// Vec<T> != &[U]
+pub assume_specification<'a, T: PartialEq<U>, U, A: core::alloc::Allocator>[ <Vec<T, A> as PartialEq<&'a [U]>>::ne ](a: &Vec<T, A>, b: &&[U]) -> (r: bool)
+    ensures a@.len() != (*b)@.len() ==> r,
+            a@.len() == 0 && (*b)@.len() == 0 ==> !r;
+// <[T]>::to_vec: an element-wise copy (stated for the length and, for Copy element types, the contents)
+pub assume_specification<T: Clone>[ <[T]>::to_vec ](s: &[T]) -> (r: Vec<T>)
+    ensures r@.len() == s@.len();
